@@ -56,6 +56,7 @@ def finalize(mod, tier, seed, results, wall, extra_acc=None, t_start=None):
     for label, cx in all_cex:
         try:
             signal.alarm(60)
+            cx = dict(cx, job=label)
             try:
                 rep = mod.replay(cx)
             finally:
